@@ -149,3 +149,18 @@ fn visit_map_ma<'de, 'e>(visitor: MapVis, ma: MA<'de, 'e>) -> (r: Result<MapVisV
 { unimplemented!() }
 #[verifier::external_body]
 fn fast_hash_set_with_capacity(n: usize) -> (r: HashSet<KeyFingerprint>) ensures r@.len() == 0 { unimplemented!() }
+
+// ---- enum variant payloads (serde side opaque): what the payload consumes is its own business ----
+#[verifier::external_body] pub struct PayVal { _p: () }
+/// `seed.deserialize(YamlDeserializer::new(ev, cfg)).map_err(|e| attach_alias_locations_if_missing(e, r, d))`
+#[verifier::external_body]
+fn variant_payload_newtype<'de>(seed: ValSeed, ev: &mut dyn Events<'de>, cfg: Cfg, reference_location: Location, defined_location: Location) -> (r: Result<PayVal, Error>)
+{ unimplemented!() }
+/// `YamlDeserializer::new(ev, cfg).deserialize_tuple(len, visitor)`
+#[verifier::external_body]
+fn variant_payload_tuple<'de>(ev: &mut dyn Events<'de>, cfg: Cfg, len: usize, visitor: MapVis) -> (r: Result<PayVal, Error>)
+{ unimplemented!() }
+/// `YamlDeserializer::new(ev, cfg).deserialize_struct("", fields, visitor)`
+#[verifier::external_body]
+fn variant_payload_struct<'de>(ev: &mut dyn Events<'de>, cfg: Cfg, fields: &'static [&'static str], visitor: MapVis) -> (r: Result<PayVal, Error>)
+{ unimplemented!() }
